@@ -135,3 +135,101 @@ def to_odata_bare(t):
         def operand(self, t, parent_prec, strict):
             return self.p(t)
     return Bare().p(t)
+
+
+# --------------------------------------------------------------------------
+# slot printer (C19): the text as a list of parts
+#   str                    fixed text
+#   ('R',)                 required whitespace (default ' ')
+#   ('O', default)         optional whitespace (BWS)
+#   ('K', word)            keyword whose letter case may vary
+#   ('L', kind, text)      non-string literal whose letters' case may vary
+# --------------------------------------------------------------------------
+class SlotPrinter:
+    def p(self, t):
+        k = t[0]
+        if k == "Identifier":
+            return [".".join(t[2][1:] + (t[1],))]
+        if k == "Attribute":
+            return self.p(t[1]) + ["/" + t[2]]
+        if k == "Null":
+            return [("K", "null")]
+        if k == "Boolean":
+            return [("K", t[1])]
+        if k == "String":
+            return ["'" + t[1].replace("'", "''") + "'"]
+        if k == "Geography":
+            return [("L", k, "geography'" + t[1] + "'")]
+        if k == "Duration":
+            return [("L", k, "duration'" + t[1] + "'")]
+        if k in T.LIT_KINDS:
+            return [("L", k, t[1])]
+        if k == "List":
+            items = t[1][1:]
+            out = ["(", ("O", "")]
+            for i, it in enumerate(items):
+                if i:
+                    out += [("O", ""), ",", ("O", " ")]
+                out += self.p(it)
+            if len(items) == 1:
+                out += [("O", ""), ",", ("O", "")]
+            else:
+                out += [("O", "")]
+            return out + [")"]
+        if k == "Call":
+            args = t[2][1:]
+            out = [".".join(t[1][2][1:] + (t[1][1],)), "(", ("O", "")]
+            for i, a in enumerate(args):
+                if i:
+                    out += [("O", ""), ",", ("O", " ")]
+                out += self.p(a)
+            if args:
+                out += [("O", "")]
+            return out + [")"]
+        if k == "NamedParam":
+            return [t[1][1] + "="] + self.p(t[2])
+        if k == "CollectionLambda":
+            out = self.p(t[1]) + ["/", ("K", SPELL[t[2][0]]), "(", ("O", "")]
+            if t[3] is not None:
+                out += [t[3][1][1], ("O", ""), ":", ("O", " ")] + self.p(t[3][2]) + [("O", "")]
+            return out + [")"]
+        if k == "UnaryOp":
+            op = t[1][0]
+            inner = self.operand(t[2], PREC[op], False)
+            if op == "Not":
+                return [("K", "not"), ("R",)] + inner
+            return ["-", " "] + inner
+        if k in ("BinOp", "Compare", "BoolOp"):
+            op = t[1][0]
+            me = PREC[op]
+            left = self.operand(t[2], me, False)
+            right = self.p(t[3]) if op == "In" else self.operand(t[3], me, True)
+            return left + [("R",), ("K", SPELL[op]), ("R",)] + right
+        raise ValueError(t)
+
+    def operand(self, t, parent_prec, strict):
+        parts = self.p(t)
+        cp = prec(t)
+        if cp < parent_prec or (strict and cp == parent_prec):
+            return ["(", ("O", "")] + parts + [("O", ""), ")"]
+        return parts
+
+
+def render_parts(parts, choice=None):
+    """choice: {slot index: replacement text}"""
+    choice = choice or {}
+    out = []
+    for i, p in enumerate(parts):
+        if isinstance(p, str):
+            out.append(p)
+        elif i in choice:
+            out.append(choice[i])
+        elif p[0] == "R":
+            out.append(" ")
+        elif p[0] == "O":
+            out.append(p[1])
+        elif p[0] == "K":
+            out.append(p[1])
+        else:
+            out.append(p[2])
+    return "".join(out)
